@@ -145,7 +145,12 @@ def weight_specs(N, scalar_ok=True, zero_ok=True, kinds=("none", "scalar", "arra
         dtype = draw(st.sampled_from(["float", "float", "int"]))
         form = draw(st.sampled_from(["nan", "tuple"])) if dtype == "float" else draw(
             st.sampled_from(["plain", "tuple"]))
-        if dtype == "float":
+        rough = dtype == "float" and draw(st.integers(0, 3)) == 0
+        if rough:
+            # weights that do not add exactly in binary floating point (0.1, 0.35, 1.7, ...)
+            vals = draw(st.lists(st.one_of(st.sampled_from([0.1, 0.35, 0.7, 1.7, 0.3, 2.5, 0.05, 1.0] + ([0.0] if lo == 0 else [])),
+                                           st.floats(0.01, 10.0, allow_nan=False)), min_size=N, max_size=N))
+        elif dtype == "float":
             vals = draw(st.lists(st.one_of(st.sampled_from([lo * 1024, 1024, 512, 2048]),
                                            st.integers(lo, 2 ** 14)), min_size=N, max_size=N))
         else:
@@ -158,7 +163,7 @@ def weight_specs(N, scalar_ok=True, zero_ok=True, kinds=("none", "scalar", "arra
         junk = draw(st.lists(st.integers(0, 2), min_size=N, max_size=N))
         as_list = draw(st.booleans()) if N >= 1 else False
         return {"kind": "array", "dtype": dtype, "form": form, "values": vals, "valid": valid,
-                "junk": junk, "as_list": as_list}
+                "junk": junk, "as_list": as_list, "rough": rough}
 
     return build()
 
@@ -251,7 +256,9 @@ def weight_arrays(spec, N):
         vals = numpy.array(spec["values"], dtype=numpy.int64)
         junkvals = numpy.array([10 ** 6, -3, 7], dtype=numpy.int64)
     else:
-        vals = numpy.array(spec["values"], dtype=float) / 1024.0
+        vals = numpy.array(spec["values"], dtype=float)
+        if not spec.get("rough"):
+            vals = vals / 1024.0
         junkvals = numpy.array([NaN, 1e6, -3.0])
     passed = vals.copy()
     if spec["form"] == "nan":
